@@ -135,6 +135,15 @@ func (d *faultDB) Update(fn func(tx walletdb.ReadWriteTx) error, reset func()) e
 	if w.faultStep == s && w.faultKind == "dberr" {
 		return errors.New("injected db error")
 	}
+	if w.faultStep == s && w.faultKind == "dbcommit" {
+		// the transaction body runs, then the commit fails: bbolt rolls back
+		return d.DB.Update(func(tx walletdb.ReadWriteTx) error {
+			if err := fn(tx); err != nil {
+				return err
+			}
+			return errors.New("injected commit error")
+		}, reset)
+	}
 	return d.DB.Update(fn, reset)
 }
 
@@ -527,7 +536,7 @@ func (g *gen) mutate() bool {
 		}
 		armed = fmt.Sprintf("crash %d %d", w.crashStep, w.crashTorn)
 	case g.faults && x < 30:
-		kinds := []string{"shortwrite", "writeerr", "truncerr", "syncerr", "dberr"}
+		kinds := []string{"shortwrite", "writeerr", "truncerr", "syncerr", "dberr", "dbcommit", "dbcommit"}
 		w.faultKind = kinds[g.r.Intn(len(kinds))]
 		w.faultStep = g.r.Intn(3)
 		w.faultArg = []int{1, 31, 32, 79, 80, 81, 100, 160}[g.r.Intn(8)]
